@@ -166,7 +166,7 @@ func unflatten(t types.Type, ts []*T) (Val, []*T) {
 			return VStr{ts[0], ts[1]}, ts[2:]
 		}
 		if u.Info()&types.IsFloat != 0 {
-			return VFlt{ts[0], ts[1]}, ts[2:]
+			return VFlt{N: ts[0], D: ts[1]}, ts[2:]
 		}
 		return VT{ts[0], t}, ts[1:]
 	case *types.Pointer, *types.Map, *types.Chan:
@@ -233,7 +233,7 @@ func fixZero(v Val) Val {
 	switch x := v.(type) {
 	case VFlt:
 		if x.D == term.I(0) {
-			return VFlt{x.N, term.I(1)}
+			return VFlt{N: x.N, D: term.I(1)}
 		}
 	case VStruct:
 		nf := make([]Val, len(x.F))
@@ -331,7 +331,7 @@ func rebuildLike2(a Val, ts []*T) (Val, []*T) {
 	case VStr:
 		return VStr{ts[0], ts[1]}, ts[2:]
 	case VFlt:
-		return VFlt{ts[0], ts[1]}, ts[2:]
+		return VFlt{N: ts[0], D: ts[1]}, ts[2:]
 	case VSlice:
 		return VSlice{ts[0], ts[1], ts[2], ts[3], x.Ty}, ts[4:]
 	case VIface:
